@@ -29,6 +29,8 @@ def run(bid):
             r = subprocess.run([os.path.join(ROOT, "check"), c, "--repo", d, "--no-evidence"], capture_output=True, text=True)
             lines = r.stdout.splitlines()
             out[c] = {"exit": r.returncode, "alarms": [l[:300] for l in lines if l.startswith(("VIOLATION", "UNDECIDED", "CHECKER"))]}
+            if r.returncode not in (0, 1, 2):
+                out[c]["stderr_tail"] = r.stderr[-1500:]
         return bid, out
     finally:
         shutil.rmtree(d, ignore_errors=True)
